@@ -7,6 +7,7 @@
 -/
 import GoBT.Interp.Exec
 import GoBT.Interp.FlagLemmas
+import GoBT.Interp.WriteReview
 namespace GoBT.C06
 open GoBT GoBT.Interp GoBT.Script
 
@@ -268,5 +269,13 @@ theorem forkid_flag_refuses_legacy_hash_types (H : Crypto) (flags : Nat) (ctx : 
 
 /-! ### non-vacuity -/
 example : walk (· == ·) [2, 5] [1, 2, 3, 5] = true ∧ walk (· == ·) [5, 2] [1, 2, 3, 5] = false := by decide
+
+/-- ✓gen — **building the script code never edits the script being executed.**  `removeOpcodeByData` / `removeOpcode`
+    (signature and separator removal) write only into a slice they allocate themselves (regenerated write-site table,
+    go/ssa): the model's `List.filter` — a new list — is an adequate description.  An in-place filter of the thread's own
+    parsed script (`p[:0]` + append) would make the opcodes *after* the signature check a different program. -/
+theorem cleanup_allocates_script_code :
+    GoBT.Interp.WriteReview.rowsOkFor
+      ["interpreter.ParsedScript.removeOpcode", "interpreter.ParsedScript.removeOpcodeByData"] = true := by decide +kernel
 
 end GoBT.C06
